@@ -202,6 +202,18 @@ func AddrKey(v ssa.Value) string {
 		}
 	case *ssa.IndexAddr:
 		return AddrKey(x.X) + "[]"
+	case *ssa.Extract:
+		return AddrKey(x.Tuple)
+	case *ssa.Lookup:
+		return AddrKey(x.X) + "[" + AddrKey(x.Index) + "]"
+	case *ssa.MakeChan:
+		return "make(chan)"
+	case *ssa.Call:
+		if c, ok := AsCall(x); ok && c.ShortName() != "" {
+			return c.ShortName() + "()"
+		}
+	case *ssa.Const:
+		return x.String()
 	}
 	return v.Name()
 }
